@@ -1,0 +1,692 @@
+//! A deterministic scheduler over real OS threads (only with
+//! `--cfg divan_verif`).
+//!
+//! Every thread that takes part is a real OS thread, but exactly one of them
+//! runs at a time. Each operation on a shim primitive (`super::shim`) is a
+//! yield point at which the next choice of the *schedule* — a vector of
+//! numbers supplied by the caller — decides which runnable thread continues.
+//! The schedule is therefore an input that can be generated, shrunk and
+//! replayed. The scheduler detects deadlock (no runnable thread while some
+//! thread has not finished), tracks vector clocks for happens-before queries,
+//! and keeps a liveness registry of shim objects so that an operation on an
+//! object that was already dropped is reported instead of being undefined
+//! behaviour that goes unnoticed.
+
+use std::{
+    cell::RefCell,
+    collections::HashMap,
+    panic::{self, AssertUnwindSafe},
+    sync::{Arc, Condvar, Mutex},
+};
+
+pub const MAX_THREADS: usize = 12;
+
+pub type Vc = [u32; MAX_THREADS];
+
+fn vc_join(a: &mut Vc, b: &Vc) {
+    for i in 0..MAX_THREADS {
+        a[i] = a[i].max(b[i]);
+    }
+}
+
+/// `a` happens-before-or-equals `b`.
+pub fn vc_le(a: &Vc, b: &Vc) -> bool {
+    (0..MAX_THREADS).all(|i| a[i] <= b[i])
+}
+
+/// Why an execution was abandoned.
+#[derive(Clone, Debug, PartialEq, Eq)]
+pub enum Failure {
+    /// No runnable thread while some thread has not finished. The strings
+    /// describe what each unfinished thread is blocked on.
+    Deadlock(Vec<String>),
+    /// An operation on a shim object that was already dropped (or never
+    /// existed): `(object kind, operation, thread)`.
+    DeadObject(String, String, usize),
+    /// `process::abort` was called.
+    Abort(usize),
+    /// The step budget was exhausted (inconclusive, not a violation).
+    Budget,
+}
+
+#[derive(Clone, Debug, PartialEq, Eq)]
+pub enum Block {
+    Park,
+    Mutex(usize),
+    Send(u64),
+    Recv(u64),
+    Barrier(u64),
+}
+
+#[derive(Clone, Debug, PartialEq, Eq)]
+enum Status {
+    /// Spawned, OS thread may not have arrived yet.
+    Runnable,
+    Blocked(Block),
+    Finished,
+}
+
+struct ThreadInfo {
+    status: Status,
+    vc: Vc,
+    park_token: bool,
+    park_vc: Vc,
+    name: String,
+    spawned_by_shim: bool,
+}
+
+pub(crate) struct Chan {
+    pub slot_full: bool,
+    pub senders: usize,
+    pub receiver_alive: bool,
+    pub vc: Vc,
+    /// The sender waiting for its value to be taken.
+    pub waiting_sender: Option<usize>,
+}
+
+pub(crate) struct BarrierState {
+    pub n: usize,
+    pub arrived: Vec<usize>,
+    pub vc: Vc,
+    pub generation: u64,
+}
+
+pub(crate) struct State {
+    threads: Vec<ThreadInfo>,
+    current: usize,
+    schedule: Vec<u32>,
+    pos: usize,
+    spurious: Vec<bool>,
+    spurious_pos: usize,
+    pub steps: u64,
+    step_budget: u64,
+    pub preemptions: u32,
+    /// Realised sequence of running threads (one entry per switch).
+    pub switches: Vec<u8>,
+    pub failure: Option<Failure>,
+    // Liveness registry: serial -> kind.
+    live: HashMap<u64, &'static str>,
+    next_serial: u64,
+    pub(crate) atomics: HashMap<u64, Vc>,
+    pub(crate) mutex_owner: HashMap<usize, usize>,
+    pub(crate) mutex_vc: HashMap<usize, Vc>,
+    pub(crate) chans: HashMap<u64, Chan>,
+    pub(crate) barriers: HashMap<u64, BarrierState>,
+    pub spawned: u32,
+    pub exited: u32,
+    /// Number of times a thread actually blocked in `park`.
+    pub parks_blocked: u32,
+    pub spurious_wakeups: u32,
+    /// Threads left blocked forever when the execution was abandoned.
+    pub abandoned: u32,
+}
+
+pub struct Sched {
+    state: Mutex<State>,
+    cv: Condvar,
+}
+
+thread_local! {
+    static CURRENT: RefCell<Option<(Arc<Sched>, usize)>> = const { RefCell::new(None) };
+}
+
+static HOOKS: Mutex<Option<(fn(), fn())>> = Mutex::new(None);
+
+/// Functions called on entry to / exit from scheduler bookkeeping (the harness
+/// uses them to hide the scheduler's own allocations from the profiler).
+pub fn set_internal_hooks(hooks: Option<(fn(), fn())>) {
+    *HOOKS.lock().unwrap_or_else(|e| e.into_inner()) = hooks;
+}
+
+struct Internal(Option<fn()>);
+
+fn internal() -> Internal {
+    let hooks = *HOOKS.lock().unwrap_or_else(|e| e.into_inner());
+    if let Some((enter, exit)) = hooks {
+        enter();
+        Internal(Some(exit))
+    } else {
+        Internal(None)
+    }
+}
+
+impl Drop for Internal {
+    fn drop(&mut self) {
+        if let Some(exit) = self.0 {
+            exit();
+        }
+    }
+}
+
+/// Panic payload used to unwind the body thread out of an abandoned execution.
+pub struct SchedAbort;
+
+/// The scheduler and logical thread id of the calling thread, if it runs
+/// under a scheduler.
+pub(crate) fn current() -> Option<(Arc<Sched>, usize)> {
+    CURRENT.try_with(|c| c.borrow().clone()).ok().flatten()
+}
+
+pub fn is_active() -> bool {
+    current().is_some()
+}
+
+#[derive(Clone, Debug)]
+pub struct Config {
+    pub schedule: Vec<u32>,
+    /// Consumed by `park` calls that would block: `true` = return spuriously.
+    pub spurious: Vec<bool>,
+    pub step_budget: u64,
+}
+
+#[derive(Clone, Debug)]
+pub struct Report {
+    pub failure: Option<Failure>,
+    pub steps: u64,
+    pub preemptions: u32,
+    pub switches: Vec<u8>,
+    pub spawned: u32,
+    pub exited: u32,
+    pub parks_blocked: u32,
+    pub spurious_wakeups: u32,
+    pub abandoned: u32,
+    /// Threads that were neither finished nor abandoned after the body
+    /// returned and every runnable thread ran to completion (leaked workers):
+    /// what they are blocked on.
+    pub leaked: Vec<String>,
+    /// `Err` if the body panicked (with something other than the scheduler's
+    /// own abort payload): the message.
+    pub body_panic: Option<String>,
+    pub schedule_used: usize,
+}
+
+/// A point in an execution, for happens-before queries by the harness.
+#[derive(Clone, Copy, Debug)]
+pub struct Stamp {
+    pub thread: usize,
+    pub vc: Vc,
+    pub step: u64,
+}
+
+/// Returns the calling thread's current stamp (and advances its clock).
+pub fn stamp() -> Option<Stamp> {
+    let (sched, me) = current()?;
+    let _i = internal();
+    let mut st = sched.state.lock().unwrap_or_else(|e| e.into_inner());
+    st.threads[me].vc[me] += 1;
+    Some(Stamp { thread: me, vc: st.threads[me].vc, step: st.steps })
+}
+
+/// Threads spawned through the shim so far in the current execution.
+pub fn spawned_so_far() -> u32 {
+    match current() {
+        Some((sched, _)) => sched.lock().spawned,
+        None => 0,
+    }
+}
+
+/// An explicit yield point for harness closures.
+pub fn yield_now() {
+    if let Some((sched, me)) = current() {
+        sched.yield_point(me, false);
+    }
+}
+
+/// Makes a token available to `thread` as if some unrelated code had called
+/// `unpark` on it earlier (a stale wake-up).
+pub fn inject_stale_token() {
+    if let Some((sched, me)) = current() {
+        let _i = internal();
+        let mut st = sched.state.lock().unwrap_or_else(|e| e.into_inner());
+        st.threads[me].park_token = true;
+    }
+}
+
+impl Sched {
+    fn lock(&self) -> std::sync::MutexGuard<'_, State> {
+        self.state.lock().unwrap_or_else(|e| e.into_inner())
+    }
+
+    /// Called with the state locked by the running thread `me`: waits until it
+    /// is `me`'s turn again. Handles abandonment.
+    fn wait_turn<'a>(&'a self, mut st: std::sync::MutexGuard<'a, State>, me: usize, in_drop: bool) -> std::sync::MutexGuard<'a, State> {
+        loop {
+            if st.failure.is_some() {
+                if me == 0 {
+                    if in_drop || std::thread::panicking() {
+                        return st;
+                    }
+                    drop(st);
+                    panic::resume_unwind(Box::new(SchedAbort));
+                }
+                // Abandoned: this thread never runs again.
+                st.abandoned += 1;
+                st.threads[me].status = Status::Finished;
+                self.cv.notify_all();
+                drop(st);
+                loop {
+                    std::thread::park();
+                }
+            }
+            if st.current == me && st.threads[me].status == Status::Runnable {
+                return st;
+            }
+            st = self.cv.wait(st).unwrap_or_else(|e| e.into_inner());
+        }
+    }
+
+    fn runnable(st: &State) -> Vec<usize> {
+        st.threads.iter().enumerate().filter(|(_, t)| t.status == Status::Runnable).map(|(i, _)| i).collect()
+    }
+
+    fn next_choice(st: &mut State) -> u32 {
+        let c = st.schedule.get(st.pos).copied().unwrap_or(0);
+        st.pos += 1;
+        c
+    }
+
+    fn switch_to(st: &mut State, next: usize) {
+        if st.current != next {
+            st.current = next;
+            if st.switches.len() < 100_000 {
+                st.switches.push(next as u8);
+            }
+        }
+    }
+
+    fn fail(st: &mut State, failure: Failure) {
+        if st.failure.is_none() {
+            st.failure = Some(failure);
+        }
+    }
+
+    /// Describes what the unfinished threads are blocked on.
+    fn describe_blocked(st: &State) -> Vec<String> {
+        st.threads
+            .iter()
+            .enumerate()
+            .filter_map(|(i, t)| match &t.status {
+                Status::Blocked(b) => Some(format!("thread {i} ({}) blocked on {b:?}", t.name)),
+                _ => None,
+            })
+            .collect()
+    }
+
+    /// A yield point of the running thread `me`.
+    pub(crate) fn yield_point(&self, me: usize, in_drop: bool) {
+        let _i = internal();
+        let mut st = self.lock();
+        if st.failure.is_some() {
+            drop(self.wait_turn(st, me, in_drop));
+            return;
+        }
+        st.steps += 1;
+        st.threads[me].vc[me] += 1;
+        if st.steps > st.step_budget {
+            Self::fail(&mut st, Failure::Budget);
+            self.cv.notify_all();
+            drop(self.wait_turn(st, me, in_drop));
+            return;
+        }
+        let choice = Self::next_choice(&mut st);
+        if choice != 0 {
+            let others: Vec<usize> = Self::runnable(&st).into_iter().filter(|&t| t != me).collect();
+            if !others.is_empty() {
+                let next = others[(choice as usize - 1) % others.len()];
+                st.preemptions += 1;
+                Self::switch_to(&mut st, next);
+                self.cv.notify_all();
+                drop(self.wait_turn(st, me, in_drop));
+            }
+        }
+    }
+
+    /// Blocks the running thread `me` on `why` and lets another thread run.
+    /// Returns when `me` was made runnable again and chosen.
+    pub(crate) fn block<'a>(&'a self, mut st: std::sync::MutexGuard<'a, State>, me: usize, why: Block) -> std::sync::MutexGuard<'a, State> {
+        st.threads[me].status = Status::Blocked(why);
+        self.pick_other(&mut st, me);
+        self.cv.notify_all();
+        self.wait_turn(st, me, false)
+    }
+
+    /// The running thread cannot continue: choose another runnable thread or
+    /// declare deadlock.
+    fn pick_other(&self, st: &mut State, _me: usize) {
+        let runnable = Self::runnable(st);
+        if runnable.is_empty() {
+            // After the body has finished, "everybody blocked" is the end of
+            // the execution (leaked workers are reported separately).
+            if st.threads[0].status != Status::Finished && st.threads.iter().any(|t| matches!(t.status, Status::Blocked(_))) {
+                let blocked = Self::describe_blocked(st);
+                Self::fail(st, Failure::Deadlock(blocked));
+            }
+            return;
+        }
+        let choice = Self::next_choice(st);
+        let next = runnable[choice as usize % runnable.len()];
+        Self::switch_to(st, next);
+    }
+
+    pub(crate) fn make_runnable(st: &mut State, t: usize) {
+        if matches!(st.threads[t].status, Status::Blocked(_)) {
+            st.threads[t].status = Status::Runnable;
+        }
+    }
+
+    // ----- liveness registry
+
+    pub(crate) fn register(&self, kind: &'static str) -> u64 {
+        let _i = internal();
+        let mut st = self.lock();
+        st.next_serial += 1;
+        let serial = st.next_serial;
+        st.live.insert(serial, kind);
+        serial
+    }
+
+    pub(crate) fn retire(&self, serial: u64) {
+        let _i = internal();
+        let mut st = self.lock();
+        st.live.remove(&serial);
+        st.atomics.remove(&serial);
+    }
+
+    /// Checks that `serial` names a live object; otherwise abandons the
+    /// execution. Returns `false` if the caller must not touch the object.
+    pub(crate) fn check_live(&self, me: usize, serial: u64, kind: &'static str, op: &'static str) -> bool {
+        let _i = internal();
+        let mut st = self.lock();
+        if st.failure.is_some() {
+            drop(st);
+            // Let `wait_turn` decide what happens to this thread.
+            let st = self.lock();
+            drop(self.wait_turn(st, me, std::thread::panicking()));
+            return false;
+        }
+        if st.live.get(&serial) == Some(&kind) {
+            return true;
+        }
+        Self::fail(&mut st, Failure::DeadObject(kind.to_string(), op.to_string(), me));
+        self.cv.notify_all();
+        drop(self.wait_turn(st, me, std::thread::panicking()));
+        false
+    }
+
+    pub(crate) fn with_state<R>(&self, f: impl FnOnce(&mut State) -> R) -> R {
+        let _i = internal();
+        let mut st = self.lock();
+        f(&mut st)
+    }
+
+    pub(crate) fn locked(&self) -> std::sync::MutexGuard<'_, State> {
+        self.lock()
+    }
+
+    pub(crate) fn notify(&self) {
+        self.cv.notify_all();
+    }
+
+    // ----- threads
+
+    /// Registers a new logical thread (called by the spawning thread).
+    pub(crate) fn new_thread(&self, parent: usize, name: String) -> Option<usize> {
+        let _i = internal();
+        let mut st = self.lock();
+        if st.threads.len() >= MAX_THREADS {
+            return None;
+        }
+        st.threads[parent].vc[parent] += 1;
+        let vc = st.threads[parent].vc;
+        st.threads.push(ThreadInfo { status: Status::Runnable, vc, park_token: false, park_vc: [0; MAX_THREADS], name, spawned_by_shim: true });
+        st.spawned += 1;
+        Some(st.threads.len() - 1)
+    }
+
+    /// Entry of a spawned OS thread: waits for its first turn.
+    pub(crate) fn thread_start(self: &Arc<Self>, me: usize) {
+        CURRENT.with(|c| *c.borrow_mut() = Some((self.clone(), me)));
+        let _i = internal();
+        let st = self.lock();
+        drop(self.wait_turn(st, me, false));
+    }
+
+    /// Exit of a spawned OS thread.
+    pub(crate) fn thread_exit(&self, me: usize) {
+        let _i = internal();
+        let mut st = self.lock();
+        st.threads[me].status = Status::Finished;
+        st.exited += 1;
+        if st.failure.is_none() {
+            self.pick_other_or_idle(&mut st);
+        }
+        self.cv.notify_all();
+        let _ = CURRENT.try_with(|c| *c.borrow_mut() = None);
+    }
+
+    fn pick_other_or_idle(&self, st: &mut State) {
+        let runnable = Self::runnable(st);
+        if runnable.is_empty() {
+            // Nobody can run. If the body thread has finished this is the end
+            // of the execution (possibly with leaked, blocked threads);
+            // otherwise it is a deadlock.
+            if st.threads[0].status != Status::Finished && st.threads.iter().any(|t| matches!(t.status, Status::Blocked(_))) {
+                let blocked = Self::describe_blocked(st);
+                Self::fail(st, Failure::Deadlock(blocked));
+            }
+            return;
+        }
+        let choice = Self::next_choice(st);
+        let next = runnable[choice as usize % runnable.len()];
+        Self::switch_to(st, next);
+    }
+
+    // ----- park / unpark
+
+    pub(crate) fn park(&self, me: usize) {
+        self.yield_point(me, false);
+        let _i = internal();
+        let mut st = self.lock();
+        if st.failure.is_some() {
+            drop(self.wait_turn(st, me, false));
+            return;
+        }
+        if st.threads[me].park_token {
+            st.threads[me].park_token = false;
+            let pvc = st.threads[me].park_vc;
+            vc_join(&mut st.threads[me].vc, &pvc);
+            return;
+        }
+        // Would block: a spurious wake-up is allowed by std.
+        let spurious = st.spurious.get(st.spurious_pos).copied().unwrap_or(false);
+        st.spurious_pos += 1;
+        if spurious {
+            st.spurious_wakeups += 1;
+            return;
+        }
+        st.parks_blocked += 1;
+        let mut st = self.block(st, me, Block::Park);
+        if st.failure.is_none() {
+            st.threads[me].park_token = false;
+            let pvc = st.threads[me].park_vc;
+            vc_join(&mut st.threads[me].vc, &pvc);
+        }
+    }
+
+    pub(crate) fn unpark(&self, me: usize, target: usize) {
+        self.yield_point(me, std::thread::panicking());
+        let _i = internal();
+        let mut st = self.lock();
+        if st.failure.is_some() || target >= st.threads.len() {
+            return;
+        }
+        st.threads[me].vc[me] += 1;
+        let vc = st.threads[me].vc;
+        vc_join(&mut st.threads[target].park_vc, &vc);
+        st.threads[target].park_token = true;
+        if st.threads[target].status == Status::Blocked(Block::Park) {
+            st.threads[target].status = Status::Runnable;
+        }
+    }
+
+    pub(crate) fn vc_of(&self, t: usize) -> Vc {
+        self.lock().threads[t].vc
+    }
+
+    pub(crate) fn set_vc(&self, t: usize, vc: Vc) {
+        self.lock().threads[t].vc = vc;
+    }
+}
+
+impl State {
+    pub(crate) fn vc_mut(&mut self, t: usize) -> &mut Vc {
+        &mut self.threads[t].vc
+    }
+
+    pub(crate) fn vc(&self, t: usize) -> Vc {
+        self.threads[t].vc
+    }
+
+    pub(crate) fn tick(&mut self, t: usize) {
+        self.threads[t].vc[t] += 1;
+    }
+
+    pub(crate) fn join_into_thread(&mut self, t: usize, vc: &Vc) {
+        vc_join(&mut self.threads[t].vc, vc);
+    }
+
+    pub(crate) fn wake(&mut self, t: usize) {
+        Sched::make_runnable(self, t);
+    }
+
+    pub(crate) fn blocked_on(&self, t: usize) -> Option<Block> {
+        match &self.threads[t].status {
+            Status::Blocked(b) => Some(b.clone()),
+            _ => None,
+        }
+    }
+
+    pub(crate) fn thread_count(&self) -> usize {
+        self.threads.len()
+    }
+
+    pub(crate) fn new_serial(&mut self, kind: &'static str) -> u64 {
+        self.next_serial += 1;
+        self.live.insert(self.next_serial, kind);
+        self.next_serial
+    }
+}
+
+pub(crate) fn join(a: &mut Vc, b: &Vc) {
+    vc_join(a, b)
+}
+
+/// Runs `body` as logical thread 0 under a fresh scheduler.
+pub fn run(config: Config, body: impl FnOnce()) -> Report {
+    let sched = Arc::new(Sched {
+        state: Mutex::new(State {
+            threads: vec![ThreadInfo {
+                status: Status::Runnable,
+                vc: [0; MAX_THREADS],
+                park_token: false,
+                park_vc: [0; MAX_THREADS],
+                name: "body".into(),
+                spawned_by_shim: false,
+            }],
+            current: 0,
+            schedule: config.schedule,
+            pos: 0,
+            spurious: config.spurious,
+            spurious_pos: 0,
+            steps: 0,
+            step_budget: config.step_budget,
+            preemptions: 0,
+            switches: Vec::with_capacity(1024),
+            failure: None,
+            live: HashMap::new(),
+            // Serials are compared with possibly stale memory: start high.
+            next_serial: 0x5EED_0000_0000_0000 ^ (std::process::id() as u64) << 20,
+            atomics: HashMap::new(),
+            mutex_owner: HashMap::new(),
+            mutex_vc: HashMap::new(),
+            chans: HashMap::new(),
+            barriers: HashMap::new(),
+            spawned: 0,
+            exited: 0,
+            parks_blocked: 0,
+            spurious_wakeups: 0,
+            abandoned: 0,
+        }),
+        cv: Condvar::new(),
+    });
+    CURRENT.with(|c| *c.borrow_mut() = Some((sched.clone(), 0)));
+
+    let result = panic::catch_unwind(AssertUnwindSafe(body));
+    let body_panic = match result {
+        Ok(()) => None,
+        Err(payload) => {
+            if payload.is::<SchedAbort>() {
+                None
+            } else if let Some(s) = payload.downcast_ref::<&str>() {
+                Some(s.to_string())
+            } else if let Some(s) = payload.downcast_ref::<String>() {
+                Some(s.clone())
+            } else {
+                Some("<non-string panic>".to_string())
+            }
+        }
+    };
+
+    // The body is done: let every runnable thread run to completion.
+    let mut leaked = Vec::new();
+    {
+        let mut st = sched.lock();
+        st.threads[0].status = Status::Finished;
+        loop {
+            if st.failure.is_some() {
+                break;
+            }
+            let runnable = Sched::runnable(&st);
+            if runnable.is_empty() {
+                break;
+            }
+            let choice = Sched::next_choice(&mut st);
+            let next = runnable[choice as usize % runnable.len()];
+            Sched::switch_to(&mut st, next);
+            sched.cv.notify_all();
+            // Wait until that thread (and whoever it hands over to) can no
+            // longer run: the baton comes back when nobody is runnable, which
+            // we poll for because thread 0 is not `Runnable`.
+            loop {
+                st = sched.cv.wait_timeout(st, std::time::Duration::from_millis(50)).unwrap_or_else(|e| e.into_inner()).0;
+                if st.failure.is_some() || Sched::runnable(&st).is_empty() {
+                    break;
+                }
+            }
+        }
+        if st.failure.is_none() {
+            leaked = Sched::describe_blocked(&st);
+        }
+        // Whatever is still blocked stays blocked forever.
+        if st.failure.is_none() && !leaked.is_empty() {
+            st.failure = None;
+        }
+    }
+    CURRENT.with(|c| *c.borrow_mut() = None);
+
+    let st = sched.lock();
+    Report {
+        failure: st.failure.clone(),
+        steps: st.steps,
+        preemptions: st.preemptions,
+        switches: st.switches.clone(),
+        spawned: st.spawned,
+        exited: st.exited,
+        parks_blocked: st.parks_blocked,
+        spurious_wakeups: st.spurious_wakeups,
+        abandoned: st.abandoned,
+        leaked,
+        body_panic,
+        schedule_used: st.pos,
+    }
+}
